@@ -39,7 +39,7 @@ def gen_receiver(rng, G, leaf_voice=False):
 
 def gen_case(pid, op, seed, index):
     rng = rng_for(pid, seed, index)
-    G = g.G(rng)
+    G = g.G(rng, tags=True, tempi=True)      # containers carry tags and tempi (opaque ids in the model)
     r = rng.random()
     t = gen_receiver(rng, G, leaf_voice=(r < 0.04))
     new = G.tree(depth=rng.choice([0, 0, 0, 1, 1, 2]))
@@ -214,6 +214,9 @@ def check(t, r, start, new, check_seq_fn):
 
 
 def oracle_for(case, io, err_leaf, check_seq_fn):
+    from props.m1common import alias_failure
+    if alias_failure(io):
+        return alias_failure(io)
     t = sp.norm(case[1])
     start = int(case[2][1])
     new = sp.norm(case[2][2])
